@@ -28,7 +28,7 @@ REGISTRY["C02"] = dict(
 REGISTRY["C19"] = dict(
     level="proof",
     theorems=T("C19", "C19_add_mod", "C19_sub_mod"),
-    cases=P.cases_C19, projection=proj_physical, oracles=[P.o_spec, P.o_no_defect_panic, P.o_ledger],
+    cases=P.cases_C19, projection=proj_physical, oracles=[P.o_addmod, P.o_spec, P.o_no_defect_panic, P.o_ledger],
 )
 
 REGISTRY["C03"] = dict(level="proof", theorems=T("C03", "C03_push_back", "C03_push_front", "C03_pop_back", "C03_pop_front", "C03_remove", "C03_truncate_back", "C03_truncate_front", "C03_push_many", "C03_drain", "C03_consequences", "C03_final_drop"), cases=P.cases_C03, projection=proj_behaviour,
